@@ -186,7 +186,10 @@ def scalar_fn(b):
     """A local function over scalar arguments only (`fn digit_value(c: u8) -> Option<u8>`, `fn is_delimiter(c: u8) ->
     bool`, `fn integer_from_parts(pos: bool, magnitude: u64) -> Number`): it cannot touch the reader, so every
     evaluation looks through it."""
-    return b.kind != "closure" and b.arg_count >= 1 and all(b.local_ty(i) in SCALARS for i in range(1, b.arg_count + 1))
+    def scalar(ty):
+        # ... or an optional scalar: `fn ends_symbol(next: Option<u8>) -> bool`
+        return ty in SCALARS or (ty.startswith("std::option::Option<") and ty[len("std::option::Option<"):-1] in SCALARS)
+    return b.kind != "closure" and b.arg_count >= 1 and all(scalar(b.local_ty(i)) for i in range(1, b.arg_count + 1))
 
 
 _VCTOR = {}
